@@ -18,7 +18,7 @@ def load_known_a(pid):
 
 
 def run(pid, tier, modules, explanation, assumptions, outside, timeout_quick=90, timeout_thorough=600,
-        thorough_modules=(), functions=None, level='other'):
+        thorough_modules=(), functions=None, level='other', collect_only=False):
     t0 = time.time()
     known = load_known_a(pid)
     T = timeout_thorough if tier == 'thorough' else timeout_quick
@@ -30,6 +30,8 @@ def run(pid, tier, modules, explanation, assumptions, outside, timeout_quick=90,
     results = run_jobs(jobs, workers=min(14, max(1, len(jobs))))
     for r in results:
         r['spec'] = {'params': r['spec']}
+    if collect_only:
+        return results   # the caller merges them with results of the other engine
     return finish(pid, tier, level, results, t0, explanation=explanation, assumptions=assumptions, outside=outside,
                   functions=functions,
                   extra_cov={'rule': 'one evaluation = one CrossHair run (a harness condition or its reachability twin); a '
